@@ -67,8 +67,13 @@ def translate():
         out["loop_count_limit"] = "None"          # no bound on the number of iterations
     # ---------------- nesting depth of emit_token (blocks, ifs, loops, macro invocations, imports, segment / label / test blocks)
     mn = re.search(r"fn emit_token\(&mut self, token: &Token\) -> CoreResult<\(\)> \{ match Self::nesting_span\(token\) \{ Some\(span\) => \{ "
-                   r"if self\.nesting_depth >= MAX_NESTING_DEPTH \{ (if self\.current_segment\.as_ref\(\)\.map\(\|s\| s\.as_str\(\)\) == Some\(\"\$dummy\"\) \{ return Ok\(\(\)\); \} )?"
-                   r"return Err\(Diagnostic::error\(\)[^;]*; \} self\.nesting_depth \+= 1; let result = self\.emit_token_impl\(token\); "
+                   r"(if self\.nesting_exhausted \{ return Ok\(\(\)\); \} )?"
+                   r"(?:let too_deep = self\.nesting_depth >= MAX_NESTING_DEPTH; if too_deep \|\| self\.containers_entered >= MAX_CONTAINERS_PER_PASS \{ self\.nesting_exhausted = true; "
+                   r"if self\.current_segment\.as_ref\(\)\.map\(\|s\| s\.as_str\(\)\) == Some\(\"\$dummy\"\) \{ self\.exhausted_in_dummy = true; return Ok\(\(\)\); \} "
+                   r"let message = if too_deep \{[^;]*\} else \{[^;]*\}; return Err\(Diagnostic::error\(\)[^;]*; \} self\.containers_entered \+= 1; "
+                   r"|if self\.nesting_depth >= MAX_NESTING_DEPTH \{ (?:if self\.current_segment\.as_ref\(\)\.map\(\|s\| s\.as_str\(\)\) == Some\(\"\$dummy\"\) \{ return Ok\(\(\)\); \} )?"
+                   r"return Err\(Diagnostic::error\(\)[^;]*; \} )"
+                   r"self\.nesting_depth \+= 1; let result = self\.emit_token_impl\(token\); "
                    r"self\.nesting_depth -= 1; result \} None => self\.emit_token_impl\(token\), \} \}", norm(cg))
     if mn:
         md = re.search(r"const MAX_NESTING_DEPTH: usize = (\d+);", cg)
@@ -77,8 +82,13 @@ def translate():
         if not md or sorted(kinds) != sorted(["Braces", "If", "Import", "Label", "Loop", "MacroInvocation", "Segment", "Test"]):
             raise ShapeError("nesting_span does not cover exactly the tokens that contain tokens: %s" % kinds)
         out["nesting_depth_limit"] = "Some %d%%nat" % int(md.group(1))
+        mcn = re.search(r"const MAX_CONTAINERS_PER_PASS: usize = (0x[0-9a-fA-F]+|\d+);", cg)
+        budget = bool(mn.group(1)) and mcn and "self.containers_entered = 0; self.nesting_exhausted = false;" in norm(cg)
+        # after the first refusal nothing descends any more in this pass, and a pass enters at most this many containers
+        out["container_budget"] = ("Some %d" % int(mcn.group(1), 0)) if budget else "None"
     elif re.search(r"fn emit_token\(&mut self, token: &Token\) -> CoreResult<\(\)> \{ match token \{", norm(cg)):
         out["nesting_depth_limit"] = "None"
+        out["container_budget"] = "None"
     else:
         raise ShapeError("emit_token: the nesting guard has unrecognised shape")
     # ---------------- import
@@ -116,7 +126,8 @@ def translate():
     out["identifier_new_asserts"] = B(bool(re.search(r"pub fn new<S: Into<String>>\(s: S\) -> Self \{ let s = s\.into\(\); assert!\( !s\.contains\('\.'\),", idr)))
     # ---------------- dummy segment
     d = norm(between(cg, r"fn with_dummy_segment<F: FnOnce\(&mut Self\) -> CoreResult<\(\)>>\(\s*&mut self,\s*f: F,\s*\) -> CoreResult<\(\)> \{", r"\n    \}", "with_dummy_segment"))
-    restores = bool(re.search(r"let prev_dummy = self \.segments \.insert\(\"\$dummy\"\.into\(\), Segment::new\(SegmentOptions::default\(\)\)\);.*?match prev_dummy \{ Some\(dummy\) => \{ self\.segments\.insert\(\"\$dummy\"\.into\(\), dummy\); \} None => \{ self\.segments\.remove\(&Identifier::new\(\"\$dummy\"\)\); \} \}", d))
+    restores = bool(re.search(r"let prev_dummy = self \.segments \.insert\(\"\$dummy\"\.into\(\), Segment::new\(SegmentOptions::default\(\)\)\);.*?match prev_dummy \{ Some\(dummy\) => \{ self\.segments\.insert\(\"\$dummy\"\.into\(\), dummy\); \} None => \{ self\.segments\.remove\(&Identifier::new\(\"\$dummy\"\)\); "
+                             r"(?:if self\.exhausted_in_dummy \{ self\.exhausted_in_dummy = false; self\.nesting_exhausted = false; \} )?\} \}", d))
     plain = bool(re.search(r"self\.segments \.insert\(\"\$dummy\"\.into\(\), Segment::new\(SegmentOptions::default\(\)\)\);.*?let result = f\(self\); self\.segments\.remove\(&Identifier::new\(\"\$dummy\"\)\);", d))
     if not (restores or plain):
         raise ShapeError("with_dummy_segment has unrecognised shape")
@@ -222,7 +233,7 @@ def translate():
     lines = ["(* GENERATED by translate/t_c06sites.py from mos-core/src/{codegen/mod.rs,codegen/segment.rs,codegen/program_counter.rs,"
              "codegen/config_extractor.rs,parser/identifier.rs}. DO NOT EDIT. *)",
              "From Coq Require Import ZArith.", "Open Scope Z_scope."]
-    types = {"align_cap": "option Z", "loop_count_limit": "option Z", "macro_depth_limit": "option nat", "pc_limit": "Z", "nesting_depth_limit": "option nat", "bank_size_limit": "option Z",
+    types = {"align_cap": "option Z", "loop_count_limit": "option Z", "macro_depth_limit": "option nat", "pc_limit": "Z", "nesting_depth_limit": "option nat", "bank_size_limit": "option Z", "container_budget": "option Z",
              "parser_nesting_limit": "option nat"}
     for k in sorted(out):
         lines.append("Definition %s : %s := %s." % (k, types.get(k, "bool"), out[k]))
